@@ -94,8 +94,7 @@ Qed.
 
 Lemma paired_shape_ok_kw es us : seg_paired es = true -> seg_shape_kw es us = true -> seg_ok_kw es us = true.
 Proof.
-  unfold seg_shape_kw, seg_ok_kw. intros H1 H2. apply andb_true_iff in H2. destruct H2 as [H2 H3].
-  rewrite (paired_shape_ok _ _ H1 H2), H3. reflexivity.
+  unfold seg_shape_kw, seg_ok_kw. exact (paired_shape_ok es us).
 Qed.
 
 Lemma frag_segs_kw_fix l :
@@ -126,6 +125,24 @@ Proof.
   split; intros Q.
   - destruct P2 as [->|[t Ht]]; [reflexivity | eapply IH; eauto].
   - destruct P3 as [->|[t Ht]]; [reflexivity | eapply IH; eauto].
+Qed.
+
+(* since the repair of F31 the keyword fragment asks nothing of the parameter
+   texts: it IS the fragment of SpecC15 (and collector_free_kw is collector_free) *)
+Lemma in_fragment_kw_eq : forall p, in_fragment_kw p = in_fragment p.
+Proof.
+  fix IH 1. intros [segs|e]; [|reflexivity].
+  rewrite in_fragment_kw_ppath, in_fragment_ppath.
+  induction segs as [|[es us s s2] r IHr]; [reflexivity|].
+  cbn [frag_segs_kw frag_segs]. rewrite (IH s), (IH s2), IHr. reflexivity.
+Qed.
+
+Lemma collector_free_kw_eq : forall p, collector_free_kw p = collector_free p.
+Proof.
+  fix IH 1. intros [segs|e]; [|reflexivity].
+  rewrite collector_free_kw_ppath, collector_free_ppath.
+  induction segs as [|[es us s s2] r IHr]; [reflexivity|].
+  cbn [shape_segs]. rewrite (IH s), (IH s2), IHr. reflexivity.
 Qed.
 
 (* ---- C15 for texts: the evaluator joined with the keyword searches, on any
